@@ -17,7 +17,13 @@ EMPTY = z3.Empty(BYTES)
 ZERO8 = z3.BitVecVal(0, 8)
 
 # ---- powers of two -------------------------------------------------------------------------------
-pow2 = specfn("pow2", [TInt], TInt, py=lambda n: 1 if n <= 0 else 2 ** n,
+def _pow2_py(n):
+    if n > 1 << 20:
+        raise OverflowError("pow2 argument too large for concrete evaluation")
+    return 1 if n <= 0 else 2 ** n
+
+
+pow2 = specfn("pow2", [TInt], TInt, py=_pow2_py,
               doc="2**n for n >= 0 (1 for n <= 0)")
 pow2.define = lambda n: z3.If(n <= 0, 1, 2 * pow2(n - 1))
 
@@ -71,8 +77,10 @@ all_len.define = lambda xs, n: all_len_upto(xs, n, z3.Length(xs))
 IL = TList(TInt)
 ILS = sort(IL)
 is_ = z3.Const("is", ILS)
+psum_upto = specfn("psum_upto", [IL, TInt], TInt, py=lambda xs, k: sum(xs[:max(k, 0)]), doc="sum of the first k elements")
+psum_upto.define = lambda xs, k: z3.If(k <= 0, 0, psum_upto(xs, k - 1) + xs[k - 1])
 isum = specfn("isum", [IL], TInt, py=lambda xs: sum(xs), doc="sum of an int list")
-isum.define = lambda xs: z3.If(z3.Length(xs) == 0, 0, isum(z3.Extract(xs, 0, z3.Length(xs) - 1)) + xs[z3.Length(xs) - 1])
+isum.define = lambda xs: psum_upto(xs, z3.Length(xs))
 
 sumlen = specfn("sumlen", [BL], TInt, py=lambda xs: sum(len(x) for x in xs))
 sumlen.define = lambda xs: z3.If(z3.Length(xs) == 0, 0,
@@ -188,3 +196,10 @@ lemma("b2i_snoc", [b_, x_], Imp(And(0 <= x_, x_ < 256),
 lemma("b2i_i2b", [x_, w_], Imp(And(0 <= x_, w_ >= 0, x_ < pow2(8 * w_)), b2i(i2b(x_, w_)) == x_),
       patterns=[b2i(i2b(x_, w_))], induct=("int", w_), inst=[[x_ / 256, w_ - 1]], uses=["b2i_snoc", "pow2_8"],
       use_inst=[("b2i_snoc", [i2b(x_ / 256, w_ - 1), x_ % 256]), ("pow2_8", [8 * (w_ - 1)])])
+
+# join of an appended list
+lemma("joinr_frame", [xs_, ys_, i_, j_], Imp(And(0 <= i_, j_ <= Len(xs_)), joinr(z3.Concat(xs_, ys_), i_, j_) == joinr(xs_, i_, j_)),
+      patterns=[joinr(z3.Concat(xs_, ys_), i_, j_)], induct=("int", j_), inst=[[xs_, ys_, i_, j_ - 1]])
+lemma("joinr_snoc", [xs_, b_], join(z3.Concat(xs_, z3.Unit(b_))) == z3.Concat(join(xs_), b_),
+      patterns=[join(z3.Concat(xs_, z3.Unit(b_)))], uses=["joinr_frame"],
+      use_inst=[("joinr_frame", [xs_, z3.Unit(b_), z3.IntVal(0), Len(xs_)])])
